@@ -371,12 +371,13 @@ const (
 	KMA2
 	KUPrim
 	KIA2
+	KPMInt
 	kindCount
 )
 
 var kindNames = [...]string{"int", "int8", "uint16", "float64", "string", "bool", "duration", "*int", "*string", "VInt", "VStr",
 	"UStr", "UInt", "UBool", "UFloat", "UAny", "UCfg", "[]int", "[]string", "[]VInt", "[2]int", "map[string]int", "map[string]interface{}",
-	"interface{}", "*Config", "DInt", "Inner", "*Inner", "struct", "*struct", "[]struct", "map[string]struct", "inline-struct", "float32", "map[string][]int", "map[string]VInt", "PI", "*[]int", "*duration", "UUint", "[]UStr", "[]UCfg", "[]map[string]int", "*regexp", "[2]struct", "[][]VInt", "map[string][]VInt", "uint64", "*UStr", "map[string]UCfg", "URefl", "UVal", "URe", "interface{}(*Inner)", "*[2]int", "map[string][2]int", "UPrim", "IA2"}
+	"interface{}", "*Config", "DInt", "Inner", "*Inner", "struct", "*struct", "[]struct", "map[string]struct", "inline-struct", "float32", "map[string][]int", "map[string]VInt", "PI", "*[]int", "*duration", "UUint", "[]UStr", "[]UCfg", "[]map[string]int", "*regexp", "[2]struct", "[][]VInt", "map[string][]VInt", "uint64", "*UStr", "map[string]UCfg", "URefl", "UVal", "URe", "interface{}(*Inner)", "*[2]int", "map[string][2]int", "UPrim", "IA2", "*map[string]int"}
 
 func (k Kind) String() string { return kindNames[k] }
 
@@ -393,7 +394,7 @@ var leafTypes = map[Kind]reflect.Type{
 	KUUint: reflect.TypeOf(UUint{}), KSUStr: reflect.TypeOf([]UStr(nil)), KSUCfg: reflect.TypeOf([]UCfg(nil)),
 	KSMap: reflect.TypeOf([]map[string]int(nil)), KRegex: tRegex,
 	KUVal: reflect.TypeOf(UVal{}), KURe: reflect.TypeOf(URe{}), KIfPInner: tIface,
-	KPA2: reflect.TypeOf((*[2]int)(nil)), KMA2: reflect.TypeOf(map[string][2]int(nil)), KUPrim: reflect.TypeOf(UPrim(0)), KIA2: reflect.TypeOf(IA2{}),
+	KPA2: reflect.TypeOf((*[2]int)(nil)), KMA2: reflect.TypeOf(map[string][2]int(nil)), KUPrim: reflect.TypeOf(UPrim(0)), KIA2: reflect.TypeOf(IA2{}), KPMInt: reflect.TypeOf((*map[string]int)(nil)),
 	KPUStr: reflect.TypeOf((*UStr)(nil)), KMUCfg: reflect.TypeOf(map[string]UCfg(nil)), KURefl: reflect.TypeOf(URefl{}),
 	KSSVInt: reflect.TypeOf([][]VInt(nil)), KMSVInt: reflect.TypeOf(map[string][]VInt(nil)), KU64: reflect.TypeOf(uint64(0)),
 	KMVInt: reflect.TypeOf(map[string]VInt(nil)), KPI: reflect.TypeOf(PI(0)), KPSInt: reflect.TypeOf((*[]int)(nil)),
@@ -414,7 +415,7 @@ type Field struct {
 	ID       string // simcheck id, unique per run
 	Policy   string // "", "replace", "append", "prepend" (slices)
 	Required bool
-	Ignore   bool   // the field carries the ignore option (next to others): nothing may touch it
+	Ignore   bool    // the field carries the ignore option (next to others): nothing may touch it
 	Bound    string  // a built-in validator of the tag: "", "min=8", "max=50", "nonzero", "positive" (durations: "min=8s", "max=30s")
 	Sub      *Struct // for struct-like kinds
 }
